@@ -194,6 +194,15 @@ def depends_on(du: DefUse, n: Node, expr: ast.AST, _seen=None, depth: int = 0) -
                 if key in _seen:
                     continue
                 _seen.add(key)
+                # values added to a container variable (flow-insensitive): x.update(E) / x.append(E) / x[K] = V
+                for m in du.cfg.stmt_nodes():
+                    for c in m.calls():
+                        if isinstance(c.func, ast.Attribute) and isinstance(c.func.value, ast.Name) and c.func.value.id == x.id \
+                                and c.func.attr in ("append", "add", "extend", "update", "insert") and c.args:
+                            k2 = (id(c), x.id)
+                            if k2 not in _seen:
+                                _seen.add(k2)
+                                out |= depends_on(du, m, c.args[-1], _seen, depth + 1)
                 if d.kind == "param":
                     out.add(d.name)
                 elif d.value is not None and d.node is not None and not isinstance(d.value, (ast.FunctionDef, ast.AsyncFunctionDef, ast.ClassDef, ast.Import, ast.ImportFrom)):
